@@ -635,18 +635,39 @@ fn build_empty_stco() -> Vec<u8> {
 fn build_hvcc_fmp4(config: &FragmentConfig) -> Vec<u8> {
     let num_arrays: u8 = if config.vps.is_some() { 3 } else { 2 };
 
+    // Fixed part of the HEVCDecoderConfigurationRecord (ISO/IEC 14496-15 8.3.3.1). The
+    // reserved bits in front of min_spatial_segmentation_idc, parallelismType, chromaFormat
+    // and the two bit depths must all be 1 (they were written as 0); profile, tier and level
+    // are taken from the SPS exactly as the progressive muxer does.
+    let hevc = crate::codec::h265::HevcConfig::new(
+        config.vps.clone().unwrap_or_default(),
+        config.sps.clone(),
+        config.pps.clone(),
+    );
     let mut payload = vec![
         1, // configuration_version
-        0, // general_profile_space (2 bits), general_tier_flag (1 bit), general_profile_idc (5 bits) - using defaults
-        0, 0, 0, 0, // general_profile_compatibility_flags
-        0, 0, 0, 0, 0, 0, // general_constraint_indicator_flags
-        0, // general_level_idc - using default
-        0, 0, // min_spatial_segmentation_idc
-        0, // parallelismType
-        0, // chromaFormat
-        0, // bitDepthLumaMinus8
-        0, // bitDepthChromaMinus8
-        0, 0,          // avgFrameRate
+        (hevc.general_profile_space() << 6)
+            | (if hevc.general_tier_flag() { 0x20 } else { 0 })
+            | (hevc.general_profile_idc() & 0x1f),
+        0x60,
+        0x00,
+        0x00,
+        0x00, // general_profile_compatibility_flags (Main)
+        0x90,
+        0x00,
+        0x00,
+        0x00,
+        0x00,
+        0x00,                     // general_constraint_indicator_flags
+        hevc.general_level_idc(), // general_level_idc
+        0xf0,
+        0x00, // reserved(4)=1111 + min_spatial_segmentation_idc(12)
+        0xfc, // reserved(6)=111111 + parallelismType(2)
+        0xfd, // reserved(6)=111111 + chromaFormat(2) = 4:2:0
+        0xf8, // reserved(5)=11111 + bitDepthLumaMinus8(3)
+        0xf8, // reserved(5)=11111 + bitDepthChromaMinus8(3)
+        0,
+        0,          // avgFrameRate
         0x07, // constantFrameRate=0, numTemporalLayers=0, temporalIdNested=1, lengthSizeMinusOne=3 (4-byte lengths)
         num_arrays, // numOfArrays
     ];
